@@ -296,7 +296,7 @@ PROPS = {
                      "trace_prefix_full", "streams_distinct", "resume_exact", "n_step_mono"],
         "harness": "C10",
         "level": "proof",
-        "rule": ('the REAL parallel Sampler (rayon pool, 1..16 cores, 1..8 chains, HashMap and Arrow traces, Diag/LowRank NUTS and MCLMC presets) run under seeded schedule perturbation (hook arm_schedule: random sleeps/yields at every chain-loop and controller point) with a seeded script of pause / resume / progress / flush / inspect / wait_timeout / abort calls, a watchdog for hangs and catch_unwind for panics. ' +
+        "rule": ('the REAL parallel Sampler (rayon pool, 1..16 cores, 1..8 chains, HashMap and Arrow traces alternating, Diag NUTS / LowRank NUTS / Diag MCLMC presets in rotation) run under seeded schedule perturbation (hook arm_schedule: random sleeps/yields at every chain-loop and controller point) with a seeded script of pause / resume / progress / flush / inspect / wait_timeout / abort calls, a watchdog for hangs and catch_unwind for panics. ' +
                  "C10 mode: no failures, no abort. Direct oracle: every chain's finalised trace (all variables, bit patterns) equals the trace of "
                  "the SAME chain run alone and sequentially (Settings::new_chain with the chain's seed/stream, no threads), whatever the core count, "
                  "number of other chains and command script; no two chains of a run have identical draws. "
@@ -314,7 +314,7 @@ PROPS = {
                      "zero_total_records_nothing", "done_no_step"],
         "harness": "C11",
         "level": "proof",
-        "rule": ('the REAL parallel Sampler (rayon pool, 1..16 cores, 1..8 chains, HashMap and Arrow traces, Diag/LowRank NUTS and MCLMC presets) run under seeded schedule perturbation (hook arm_schedule: random sleeps/yields at every chain-loop and controller point) with a seeded script of pause / resume / progress / flush / inspect / wait_timeout / abort calls, a watchdog for hangs and catch_unwind for panics. ' +
+        "rule": ('the REAL parallel Sampler (rayon pool, 1..16 cores, 1..8 chains, HashMap and Arrow traces alternating, Diag NUTS / LowRank NUTS / Diag MCLMC presets in rotation) run under seeded schedule perturbation (hook arm_schedule: random sleeps/yields at every chain-loop and controller point) with a seeded script of pause / resume / progress / flush / inspect / wait_timeout / abort calls, a watchdog for hangs and catch_unwind for panics. ' +
                  "C11 mode: command scripts including repeated pause, resume without pause, commands after completion, abort while paused / "
                  "before any chain started, num_chains <,=,> num_cores, slow chains; runs end by wait or by abort. Direct oracle: every call "
                  "returns (watchdog), an un-aborted run records exactly num_tune+num_draws draws per chain equal to the sequential trace and "
@@ -332,7 +332,7 @@ PROPS = {
                      "resume_exact", "resume_unblocks", "resume_unblocks_exact", "trace_eq_range", "schedule_independent_complete"],
         "harness": "C12",
         "level": "proof",
-        "rule": ('the REAL parallel Sampler (rayon pool, 1..16 cores, 1..8 chains, HashMap and Arrow traces, Diag/LowRank NUTS and MCLMC presets) run under seeded schedule perturbation (hook arm_schedule: random sleeps/yields at every chain-loop and controller point) with a seeded script of pause / resume / progress / flush / inspect / wait_timeout / abort calls, a watchdog for hangs and catch_unwind for panics. ' +
+        "rule": ('the REAL parallel Sampler (rayon pool, 1..16 cores, 1..8 chains, HashMap and Arrow traces alternating, Diag NUTS / LowRank NUTS / Diag MCLMC presets in rotation) run under seeded schedule perturbation (hook arm_schedule: random sleeps/yields at every chain-loop and controller point) with a seeded script of pause / resume / progress / flush / inspect / wait_timeout / abort calls, a watchdog for hangs and catch_unwind for panics. ' +
                  "C12 mode: pause placed at seeded points of the chain loop, progress sampled right after pause() returned, again after a delay, "
                  "then resume. Direct oracle: finished_draws after pause() returned grows by at most 1 + (commands outstanding for that chain), "
                  "then not at all until resume(); final trace equals the sequential trace. "
@@ -347,7 +347,7 @@ PROPS = {
                      "init_failure_fails", "failure_is_reported", "error_sticky", "sampler_reports_error"],
         "harness": "C13",
         "level": "proof",
-        "rule": ('the REAL parallel Sampler (rayon pool, 1..16 cores, 1..8 chains, HashMap and Arrow traces, Diag/LowRank NUTS and MCLMC presets) run under seeded schedule perturbation (hook arm_schedule: random sleeps/yields at every chain-loop and controller point) with a seeded script of pause / resume / progress / flush / inspect / wait_timeout / abort calls, a watchdog for hangs and catch_unwind for panics. ' +
+        "rule": ('the REAL parallel Sampler (rayon pool, 1..16 cores, 1..8 chains, HashMap and Arrow traces alternating, Diag NUTS / LowRank NUTS / Diag MCLMC presets in rotation) run under seeded schedule perturbation (hook arm_schedule: random sleeps/yields at every chain-loop and controller point) with a seeded script of pause / resume / progress / flush / inspect / wait_timeout / abort calls, a watchdog for hangs and catch_unwind for panics. ' +
                  "C13 mode: one or several chains fail at a seeded draw (initialisation, warmup, sampling, last draw) by: unrecoverable density "
                  "error, storage failure in record_sample, model construction failure, all initialisation points failing; plus recoverable-only "
                  "errors. Direct oracle: wait_timeout/abort returns Err (never Ok, never a panic of the caller, never a hang) iff some chain hit "
